@@ -92,6 +92,10 @@ def config_plan(source, names, mode):
 
 
 # ------------------------------------------------------------------ one module
+class BaselineError(Exception):
+    """The module cannot even be instrumented without any exclusion (a defect outside the exclusion logic)."""
+
+
 class ModuleRun:
     def __init__(self, col, name, source, names, scratch, kind):
         from mc import exclusions as ex
@@ -104,8 +108,10 @@ class ModuleRun:
         self.marked = {}
         self.base = self._load((), (True, True), (), ())
         again = self._load((), (True, True), (), ())
-        if self.base.error is not None or self.base.summary() != again.summary():
-            raise RuntimeError(f"{name}: baseline not loadable / not deterministic: {self.base.summary()}")
+        if self.base.error is not None:
+            raise BaselineError(self.base.error, self.base.error_text)
+        if self.base.summary() != again.summary():
+            raise RuntimeError(f"{name}: baseline not deterministic: {self.base.summary()} / {again.summary()}")
 
     def _load(self, placement, flags, only, no):
         ex = self.ex
@@ -308,7 +314,19 @@ def _run_item(col, name, src, names, kind, lo, hi, tier, scratch):
     sub = os.path.join(scratch, name)
     os.makedirs(sub, exist_ok=True)
     try:
-        run = ModuleRun(col, name, src, names, sub, kind)
+        try:
+            run = ModuleRun(col, name, src, names, sub, kind)
+        except BaselineError as exc:
+            col.count("configurations_skipped_module_not_instrumentable", hi - lo)
+            if lo == 0:
+                col.count("modules")
+                col.count("modules_not_instrumentable")
+                col.violation(f"C08|none|none|raises:{exc.args[0]}",
+                              f"{name}: importing through the instrumentation hook without any exclusion raised "
+                              f"{exc.args[0]}: {exc.args[1]}; its configurations are skipped",
+                              {"leg": "config", "name": name, "source": src, "names": list(names), "markers": [],
+                               "flags": [True, True], "only_cover": [], "no_cover": []}, rank=1)
+            return
         plan = config_plan(src, names, mode_for(kind, tier))
         if lo == 0:
             col.count("modules")
@@ -336,8 +354,9 @@ def run(ctx):
     c = ctx.col.counters
     items = work_items(ctx.tier)
     planned = sum(hi - lo for *_x, lo, hi in items)
-    ctx.require(c.get("evaluations", 0) - c.get("ignore_methods_scenarios", 0) == planned,
-                f"evaluated {c.get('evaluations')} configurations, planned {planned}")
+    done = (c.get("evaluations", 0) - c.get("ignore_methods_scenarios", 0)
+            + c.get("configurations_skipped_module_not_instrumentable", 0))
+    ctx.require(done == planned, f"evaluated {c.get('evaluations')} configurations, planned {planned}")
     ctx.require(len(ctx.col.sets.get("outcomes", ())) == 3, "vacuous: raise / changed / same not all observed")
     ctx.require(len(ctx.col.sets.get("line_statuses", ())) == 3, "vacuous: EXC / INC / ANY not all produced by the oracle")
     need = {"if-header", "elif", "else", "loop-else", "try-header", "except", "try-else", "finally", "case",
@@ -380,7 +399,12 @@ def replay(ctx, data):
     if data.get("leg") == "ignore":
         ignore_methods_leg(ctx.col, data["name"], data["source"], data["names"], scratch)
         return
-    run = ModuleRun(ctx.col, data["name"], data["source"], data["names"], scratch, "replay")
+    try:
+        run = ModuleRun(ctx.col, data["name"], data["source"], data["names"], scratch, "replay")
+    except BaselineError as exc:
+        ctx.col.violation(f"C08|none|none|raises:{exc.args[0]}", f"{data['name']}: not instrumentable: {exc.args[1]}",
+                          data, rank=1)
+        return
     cfg = (tuple(tuple(x) for x in data["markers"]), tuple(data["flags"]), tuple(data["only_cover"]),
            tuple(data["no_cover"]))
     run.check(cfg)
